@@ -199,7 +199,13 @@ fn helper_op(rng: &mut Rng, fresh: bool) -> Op {
         1 => {
             let h = *rng.pick(HELPERS_2);
             let (a, b) = if h == "abstract_plus" && rng.chance(1, 2) { (gen::number_atom(rng), gen::number_atom(rng)) } else { (gen::data(rng, 1), gen::data(rng, 1)) };
-            Op::helper(h, vec![t(&a), t(&b)], fresh)
+            let mut op = Op::helper(h, vec![t(&a), t(&b)], fresh);
+            if rng.chance(1, 8) {
+                // the caller passes one value as both operands
+                op.args[1] = op.args[0].clone();
+                op.alias = true;
+            }
+            op
         }
         _ => {
             let h = *rng.pick(HELPERS_N);
@@ -417,11 +423,11 @@ pub fn gen_run(seed: u64, params: &GenParams, corpus: &Corpus, oracle: &mut Orac
 // ---------------------------------------------------------------------------------------------
 
 struct PoolMap {
-    map: HashMap<String, (Arc<Value>, String)>,
+    map: HashMap<(usize, String), (Arc<Value>, String)>,
 }
 impl Pool for PoolMap {
-    fn get(&self, text: &str) -> Option<Arc<Value>> {
-        self.map.get(text).map(|(v, _)| v.clone())
+    fn get(&self, pos: usize, text: &str) -> Option<Arc<Value>> {
+        self.map.get(&(pos, text.to_string())).map(|(v, _)| v.clone())
     }
 }
 
@@ -432,11 +438,12 @@ fn build_pool(run: &E1Run) -> PoolMap {
             if op.fresh {
                 continue;
             }
-            for a in &op.args {
-                if !map.contains_key(a) {
+            for (pos, a) in op.args.iter().enumerate() {
+                let key = (pos, a.clone());
+                if !map.contains_key(&key) {
                     let v: Value = serde_json::from_str(a).expect("operand text");
                     let snap = v.to_string();
-                    map.insert(a.clone(), (Arc::new(v), snap));
+                    map.insert(key, (Arc::new(v), snap));
                 }
             }
         }
@@ -598,7 +605,7 @@ fn judge(run: &E1Run, out: &RunOutput, isos: &[Vec<Arc<Iso>>], pool: &PoolMap, r
         }
     }
     // shared operands at the end of the run
-    let mut keys: Vec<&String> = pool.map.keys().collect();
+    let mut keys: Vec<&(usize, String)> = pool.map.keys().collect();
     keys.sort();
     for k in keys {
         let (val, snap) = &pool.map[k];
